@@ -29,9 +29,9 @@ func init() {
 	}
 	Props["C04"] = &PropSpec{
 		Level:       "other",
-		Rules:       []string{"R07", "R08", "R05", "R18b", "R43", "R46"},
-		Explanation: "Clause 1 only (every output vertex is the pixel centre of some input vertex), for all inputs: outputs are centroids of stored quadrants (R07); quadrants are stored only by insertCoord, only for addresses computed from polygon vertices after the range check (R08); every vertex is inserted (R05); per-level lists never alias (R18b). One necessary condition of clause 3: the containment predicate used for hole matching counts boundary points as inside and examines every segment (R46).",
-		Decided:     []string{"clause 1: every output vertex is the pixel centre of an input vertex", "necessary condition of clause 3: ringContains answers outside only after all segments were examined (R46)"},
+		Rules:       []string{"R07", "R08", "R05", "R18b", "R43", "R46", "R03", "R04", "R12", "R13"},
+		Explanation: "Clause 1 only (every output vertex is the pixel centre of some input vertex), for all inputs: outputs are centroids of stored quadrants (R07); quadrants are stored only by insertCoord, only for addresses computed from polygon vertices after the range check (R08); every vertex is inserted (R05); per-level lists never alias (R18b). Necessary conditions of clause 2: an edge is routed only through pixels the segment/pixel test or the certainty argument of the 2x2 decision table admits (R03, R04) -- a pixel admitted without either puts a vertex more than half a pixel from the edge. Necessary conditions of clause 3: the containment predicate used for hole matching counts boundary points as inside and examines every segment (R46); a ring leaves cleanupNewRing only as points-and-lines or through splitRing, which classifies it by its role, and an unmatched hole is turned around before it becomes a shell (R12, R13).",
+		Decided:     []string{"clause 1: every output vertex is the pixel centre of an input vertex", "necessary conditions of clause 2: pixels are admitted to a route only by the segment/pixel test or by certainty (R03, R04)", "necessary conditions of clause 3: ringContains answers outside only after all segments were examined (R46); ring roles survive clean-up (R12, R13)"},
 		NotDecided:  []string{"clause 2: half-pixel Chebyshev distance of every edge point", "clause 3: coverage equivalence beyond one pixel; holes stay holes, parts stay parts"},
 	}
 	Props["C05"] = &PropSpec{
